@@ -236,8 +236,26 @@ type vStrictIPSet struct {
 	inUse []string
 }
 
+func (s *vStrictIPSet) ListSets() ([]string, error) {
+	s.mu.Lock()
+	defer s.mu.Unlock()
+	return s.FakeIPSet.ListSets()
+}
+func (s *vStrictIPSet) AddEntry(entry string, set *ipset.IPSet, ignore bool) error {
+	s.mu.Lock()
+	defer s.mu.Unlock()
+	return s.FakeIPSet.AddEntry(entry, set, ignore)
+}
+func (s *vStrictIPSet) DelEntry(entry string, set string) error {
+	s.mu.Lock()
+	defer s.mu.Unlock()
+	return s.FakeIPSet.DelEntry(entry, set)
+}
+
 func (s *vStrictIPSet) DestroySet(set string) error {
 	_, rules := s.ipt.chainsAndRulesLocked()
+	s.mu.Lock()
+	defer s.mu.Unlock()
 	for _, r := range rules {
 		for _, n := range vRuleSets(r) {
 			if n == set {
